@@ -51,7 +51,7 @@ type batchSet struct {
 func genBatchProjects(root string, seed uint64, nProj int, tagProp string) ([]*Scenario, []batchLine, error) {
 	var scs []*Scenario
 	var lines []batchLine
-	classicDone, fertDone := false, false
+	classicDone, fertDone, lateDone := false, false, false
 	for i := 0; i < nProj; i++ {
 		r := NewRng(mix(mix(seed, uint64(i)), hashStr(tagProp)))
 		p := defaultProfile()
@@ -123,6 +123,30 @@ func genBatchProjects(root string, seed uint64, nProj int, tagProp string) ([]*S
 			}
 		}
 		resDummy := filepath.Join(root, "res_unused")
+		if !lateDone && tagProp == "C03" && i >= 3 && sc.Weather.Layout != 0 && !unstable && sc.End.Zeit()-sc.Start.Zeit() > 120 {
+			// one project whose multi-year weather file begins some days after the simulation start: the model runs such days
+			// without a record (open finding F05 of C04, not judged here); what it then reads is whatever its weather tables hold,
+			// and that may not depend on which runs the process has finished before. The complete series is kept in a sister
+			// weather folder; a variant line of the project runs with it (same period, other weather on the days cut away)
+			cut := sc.Start.Zeit() + 5 + int(mix(seed, uint64(i))%30)
+			var keep []WeatherDay
+			for _, d := range sc.Weather.Days {
+				if d.D.Zeit() > cut {
+					keep = append(keep, d)
+				}
+			}
+			if len(keep) > 0 && len(keep) < len(sc.Weather.Days) {
+				lateDone = true
+				sister := cloneScenario(sc)
+				sister.Weather.Folder = sc.Weather.Folder + "s"
+				if _, err := sister.Materialize(root, resDummy); err != nil {
+					return nil, nil, err
+				}
+				keep[0].NoneTavg, keep[0].NoneSun, keep[0].NoneVerd = false, false, false
+				sc.Weather.Days = keep
+				sc.WeatherStartsLate, sc.SisterWeatherFolder = true, sister.Weather.Folder
+			}
+		}
 		args, err := sc.Materialize(root, resDummy)
 		if err != nil {
 			return nil, nil, err
